@@ -28,7 +28,7 @@ import z3
 from contracts.c01 import den
 from pyvc import types as ty
 from pyvc.contract import Contract
-from pyvc.ghost import ghost
+from pyvc.ghost import ghost, isa
 from pyvc.values import SObj, fresh_name
 from spec import arith32 as A
 from spec import ops
@@ -332,3 +332,152 @@ CONTRACTS.append(Contract(
                                                                    effect=_pj_from("from_int"), verify=False, note="proved above"),
           "ExpressionLowerer._error": "skip"},
     dynamic_types=_PJ_DYN, properties=("C01", "C13"), min_obligations=2, no_replay=True))
+
+
+# =================================================================================================
+# Signal literals `("signal-T", value)` (C01, C11):
+#   _lower_literal_value   the compile-time value when the value expression has one (contract of extract_constant_int), else what
+#                          the expression lowers to
+#   _literal_ref           an integer value -> a constant with that value on T; a run-time value -> THAT value carried on T (the
+#                          projection contract above); never the constant 0 for a value that exists
+#   lower_signal_literal   typed literal: the value on the resolved type T (registered); untyped literal of integer kind: the bare
+#                          integer expression
+# =================================================================================================
+SLIT = {}
+
+
+def _sl_reset(a):
+    SLIT.clear()
+    return True
+
+
+def _sl_extract(ex, a):
+    return ghost(a.expr, "cval", ty.TOpt(ty.Int))
+
+
+def _sl_lower(ex, a):
+    SLIT.setdefault("lowered", []).append(a.expr)
+    v = ex.mk(_REF, fresh_name("value"), register=True)
+    a.expr._fields["@lowered_value"] = v
+    return v
+
+
+_sl_extract_c = Contract(qualname="dsl_compiler/src/lowering/constant_folder.py::ConstantFolder.extract_constant_int", params={"cls": _OPQ, "expr": _OPQ, "diagnostics": _OPQ, "symbol_resolver": _OPQ},
+                         defaults={"diagnostics": None, "symbol_resolver": None}, effect=_sl_extract, verify=False, note="verified separately (contracts.c11): the S3 constant value, or None")
+_sl_lower_c = Contract(qualname=EL + "lower_expr", params={"self": _OPQ, "expr": _OPQ}, effect=_sl_lower, verify=False, note="the lowered value expression: an integer or a signal reference")
+
+
+def _llv_post(a, res):
+    c = a.value_expr._fields.get("@cval")
+    if c is not None:
+        return And(not SLIT.get("lowered"), res is c)
+    return len(SLIT.get("lowered", [])) == 1 and res is a.value_expr._fields.get("@lowered_value")
+
+
+CONTRACTS.append(Contract(
+    qualname=EL + "_lower_literal_value", params={"self": ty.TObj("ExpressionLowerer", only=("ExpressionLowerer",)), "value_expr": ty.TObj("Expr")},
+    requires=[("(reset capture)", _sl_reset)],
+    ensures=[("the compile-time value when there is one, else the lowered expression", _llv_post)],
+    uses={"ConstantFolder.extract_constant_int": _sl_extract_c, "ExpressionLowerer.lower_expr": _sl_lower_c, "ExpressionLowerer.diagnostics": "inline"},
+    dynamic_types={"self": {"parent": ty.TObj("ASTLowerer", only=("ASTLowerer",))}, "self.parent": {"diagnostics": ty.TOpaque("diag")}},
+    properties=("C01", "C11"), min_obligations=2, no_replay=True))
+
+
+def _pj_from_signal_value(ex, a):
+    SLIT["projected"] = (a.source_ref, a.target_type)
+    r = SObj(["SignalRef"], fresh_name("projected"), lazy=True)
+    ex.assume(And(den(r) == den(a.source_ref), r.signal_type == a.target_type))
+    return r
+
+
+def _lref_post(a, res):
+    v = a.value_ref
+    if isinstance(v, SObj):
+        return And(den(res) == den(v), res.signal_type == a.output_type, SLIT.get("projected") is not None and SLIT["projected"][0] is v)
+    return And(den(res) == v, res.signal_type == a.output_type)
+
+
+CONTRACTS.append(Contract(
+    qualname=EL + "_literal_ref", params={"self": ty.TObj("ExpressionLowerer", only=("ExpressionLowerer",)), "output_type": ty.Str, "value_ref": _REF,
+                                          "expr": ty.TObj("SignalLiteral", only=("SignalLiteral",))},
+    requires=[("(reset capture)", _sl_reset)],
+    ensures=[("the literal carries its value — constant or computed at run time — on its signal", _lref_post)],
+    uses={"IRBuilder.const": _builder_const, "ExpressionLowerer._lower_projection_from_signal": Contract(
+        qualname=EL + "_lower_projection_from_signal", params={"self": _OPQ, "expr": _OPQ, "source_ref": _OPQ, "target_type": _OPQ}, effect=_pj_from_signal_value, verify=False, note="proved above"),
+          "ExpressionLowerer.ir_builder": "inline"},
+    dynamic_types=_PJ_DYN | {"self.parent": {"ir_builder": ty.TObj("IRBuilder", only=("IRBuilder",))}}, properties=("C01", "C11"), min_obligations=2, no_replay=True))
+
+
+def _sl_value(ex, a):
+    v = ex.mk(_REF, fresh_name("literal_value"), register=True)
+    SLIT["value"] = v
+    SLIT["value_of"] = a.value_expr
+    return v
+
+
+def _sl_literal_ref(ex, a):
+    SLIT["literal_ref_args"] = (a.output_type, a.value_ref)
+    r = SObj(["SignalRef"], fresh_name("literal"), lazy=True)
+    ex.assume(den(r) == den(a.value_ref))
+    r._fields["signal_type"] = a.output_type
+    r._fields["source_id"] = z3.String(fresh_name("literal_id"))
+    SLIT["ref"] = r
+    return r
+
+
+def _sl_type(ex, a):
+    return ghost(ex.args_ns.expr, "semantic_type", ty.TObj("ValueInfo", only=("IntValue", "SignalValue")))
+
+
+def _sl_type_name(ex, a):
+    from pyvc.values import ClassRef
+    t = a.value_type
+    is_int = ex.isinstance_(t, ClassRef("IntValue"))
+    if is_int if isinstance(is_int, bool) else ex.branch(is_int):
+        return None            # an integer has no signal name
+    n = ghost(t, "name", ty.TOpt(ty.Str))
+    if n is not None:
+        ex.assume(z3.Length(n) > 0)   # a signal name is non-empty (as in contracts.c01 sig_type_name)
+    return n
+
+
+def _sl_post(typed):
+    def post(a, res):
+        e = a.expr
+        if typed:
+            t = e._fields.get("@target")
+            want_t = t if t is not None else z3.String("fresh_implicit_type")
+            args = SLIT.get("literal_ref_args")
+            return And(res is SLIT.get("ref"), SLIT.get("value_of") is e.value, args is not None and args[1] is SLIT.get("value"), ops.eq(res.signal_type, want_t),
+                       any((r is want_t) or (ops.is_sym(r) and ops.is_sym(want_t) and r.eq(want_t)) for r in PJ.get("registered", [])))
+        st = e._fields.get("@semantic_type")
+        name = st._fields.get("@name") if st is not None else None
+        if name is not None:
+            return And(res is SLIT.get("ref"), ops.eq(res.signal_type, name), SLIT.get("value_of") is e.value)
+        if st is not None and isa(st, "IntValue") is True:
+            return res is e.value._fields.get("@lowered_value") and "ref" not in SLIT   # the bare integer expression
+        return res is SLIT.get("ref")
+    return post
+
+
+for _typed in (True, False):
+    CONTRACTS.append(Contract(
+        qualname=EL + "lower_signal_literal",
+        params={"self": ty.TObj("ExpressionLowerer", only=("ExpressionLowerer",)),
+                "expr": ty.TObj("SignalLiteral", only=("SignalLiteral",), ftypes=(("signal_type", ty.Str if _typed else ty.TConcrete(None)), ("value", ty.TObj("Expr"))))},
+        requires=[("(reset capture)", lambda a: (_sl_reset(a), _pj_reset(a)) and True)],
+        ensures=[("the literal's value on its resolved (registered) signal; an untyped integer literal stays the bare integer expression", _sl_post(_typed))],
+        uses={"ExpressionLowerer._resolve_signal_type": Contract(qualname=EL + "_resolve_signal_type", params={"self": _OPQ, "type_ref": _OPQ, "node": _OPQ}, effect=_pj_resolve_type, verify=False,
+                                                                 note="the literal's signal name (None after a reported error)"),
+              "IRBuilder.allocate_implicit_type": Contract(qualname=IRB + "allocate_implicit_type", params={"self": _OPQ}, effect=lambda ex, a: z3.String("fresh_implicit_type"), verify=False,
+                                                           note="fresh implicit type name"),
+              "ASTLowerer.ensure_signal_registered": _pj_reg_c,
+              "ExpressionLowerer._lower_literal_value": Contract(qualname=EL + "_lower_literal_value", params={"self": _OPQ, "value_expr": _OPQ}, effect=_sl_value, verify=False, note="proved above"),
+              "ExpressionLowerer._literal_ref": Contract(qualname=EL + "_literal_ref", params={"self": _OPQ, "output_type": _OPQ, "value_ref": _OPQ, "expr": _OPQ}, effect=_sl_literal_ref, verify=False,
+                                                         note="proved above: the value carried on the signal"),
+              "opaque.get_expr_type": Contract(qualname="dsl_compiler/src/semantic/analyzer.py::SemanticAnalyzer.get_expr_type", params={"args": _OPQ}, effect=_sl_type, verify=False, note="the literal's type"),
+              "fn:get_signal_type_name": Contract(qualname="dsl_compiler/src/semantic/type_system.py::get_signal_type_name", params={"value_type": _OPQ}, effect=_sl_type_name, verify=False,
+                                                  note="three-line accessor: the signal name of a SignalValue, None for an IntValue"),
+              "ExpressionLowerer.lower_expr": _sl_lower_c, "ExpressionLowerer._attach_expr_context": "skip", "ExpressionLowerer.ir_builder": "inline", "ExpressionLowerer.semantic": "inline"},
+        dynamic_types=_PJ_DYN | {"self.parent": {"ir_builder": ty.TObj("IRBuilder", only=("IRBuilder",)), "semantic": ty.TOpaque("semantic")}},
+        properties=("C01", "C11"), min_obligations=2, no_replay=True, note="typed literal" if _typed else "untyped literal"))
